@@ -84,8 +84,9 @@ Inductive op :=
 | DeleteEdge (e : N)
 | DeleteNode (n : N)
 | UpdateNode (n : N)
-| UpdateEdge (e : N).
-Inductive res := RId (i : N) | ROk | RNoNode (n : N) | RNoEdge (e : N) | RErr.
+| UpdateEdge (e : N)
+| BatchCreateEdges (l : list (N * N * bool)).   (* batch_create_edges: validate all, reserve an id block, create *)
+Inductive res := RId (i : N) | ROk | RNoNode (n : N) | RNoEdge (e : N) | RErr | RIds (l : list N).
 
 Definition with_ecount (s : store) (c : N) : store := ST (snodes s) (sout s) (sinl s) (sedges s) (ncount s) c.
 
@@ -96,16 +97,32 @@ Definition delete_node (s : store) (n : N) : store :=
   let s2 := ST (filter (fun x => negb (N.eqb x n)) (snodes s1)) (sout s1) (sinl s1) (sedges s1) (ncount s1) (ecount s1) in
   del_list (del_list s2 (KOut n)) (KIn n).
 
+Definition create_edge_op (s : store) (f t : N) (d : bool) : store * res :=
+  if negb (node_exists s f) then (s, RNoNode f)
+  else if negb (node_exists s t) then (s, RNoNode t)
+  else let id := ecount s + 1 in
+       (run_steps (with_ecount s id) (create_edge_steps id f t d), RId id).
+(* phase 1 of batch_create_edges: the first missing endpoint, edges in order, `from` before `to` *)
+Fixpoint batch_missing (s : store) (l : list (N * N * bool)) : option N :=
+  match l with
+  | [] => None
+  | (f, t, _) :: r => if negb (node_exists s f) then Some f
+                      else if negb (node_exists s t) then Some t else batch_missing s r
+  end.
+Definition batch_create (s : store) (l : list (N * N * bool)) : store * res :=
+  match batch_missing s l with
+  | Some n => (s, RNoNode n)
+  | None => (fold_left (fun s c => let '(f, t, d) := c in fst (create_edge_op s f t d)) l s,
+             RIds (N_seq_from (ecount s + 1) (length l)))
+  end.
+
 Definition apply (s : store) (o : op) : store * res :=
   match o with
   | CreateNode =>
       let id := ncount s + 1 in
       (ST (snodes s ++ [id]) (aset (sout s) id []) (aset (sinl s) id []) (sedges s) id (ecount s), RId id)
-  | CreateEdge f t d =>
-      if negb (node_exists s f) then (s, RNoNode f)
-      else if negb (node_exists s t) then (s, RNoNode t)
-      else let id := ecount s + 1 in
-           (run_steps (with_ecount s id) (create_edge_steps id f t d), RId id)
+  | CreateEdge f t d => create_edge_op s f t d
+  | BatchCreateEdges l => batch_create s l
   | CreateEdgeId e f t d =>
       if negb (node_exists s f) then (s, RNoNode f)
       else if negb (node_exists s t) then (s, RNoNode t)
